@@ -186,7 +186,7 @@ def check_c01(ctx):
          {"N": 3, "WLO": 0, "WHI": 3, "PICKS": 10, "UPDATES": 1, "OPS": 12, "SCALE": 100, "FOCUS": "TRUE"}
     ctx.cov["constants"]["Gen_C01_focus"] = g3
     cases += gen(ctx, "Gen_C01.cfg", g3, timeout=1500)
-    for n, num in ((3, 300), (4, 300)) if q else ((3, 3000), (4, 3000), (5, 2000)):
+    for n, num in ((3, 300), (4, 300)) if q else ((3, 2500), (4, 1500), (5, 800)):
         g2 = {"N": n, "WLO": 0, "WHI": 4 if n < 5 else 3, "PICKS": 30, "UPDATES": 1, "OPS": 34, "SCALE": 100,
               "ANYORDER": "TRUE" if n < 5 else "FALSE"}
         cases += gen(ctx, "Gen_C01.cfg", g2, mode="sim", num=num, depth=40)
